@@ -95,3 +95,238 @@ Theorem git_series_mode : forall o p1 p2 f A0 A1 A2 st s1 s2 w data m0,
 Proof. exact Proofs_DriverMore.git_series_mode. Qed.
 Print Assumptions git_series_mode.
 
+
+(* ===== merged from Properties_RefuseRun.v ===== *)
+From PatchV Require Import Base Lines Hunk Locator Formatter Options Applier LineParser Parser World Driver
+     Proofs_Reverse Proofs_DriverMore Spec_Names Proofs_Names Proofs_Fuel Proofs_Unified Proofs_Filler Proofs_Sections
+     Proofs_Sections_Unified Proofs_Whole Proofs_DriverBatch Proofs_RefuseRun.
+
+(* the section: either refusal of process_section (stat says: a regular file without any write bit under --read-only=fail; a
+   directory or another kind of node) performs exactly one operation, the creation of f.rej with the header and every hunk *)
+Theorem section_refused_gen : forall o p f h hs st s w n,
+  refusing_options o -> should_write_as_unified o p = true ->
+  (poper p = OpChange \/ poper p = OpAdd \/ poper p = OpDelete) ->
+  old_path p = f -> f <> Driver.devnull -> f <> [] -> ~ In 47%N f ->
+  hunks p = h :: hs ->
+  fault w = None -> deferred_writes st = [] ->
+  lookup (fs w) f = Some n -> refused_node o n ->
+  lookup (fs w) (f ++ bs ".rej") = None ->
+  let rej := write_patch_header_as_unified p ++ emit_hunks (h :: hs) in
+  process_section o st false p s w =
+  (Ok (refused_state st (S (length hs)), s),
+   wstep w (upd (fs w) (f ++ bs ".rej") (Reg rej (created_mode (umask w)))) (OWrite (f ++ bs ".rej") rej)).
+Proof. exact Proofs_RefuseRun.section_refused_gen. Qed.
+Print Assumptions section_refused_gen.
+
+(* process_patch on the text of a unified patch for one file, refused for either reason: the result as an equation *)
+Theorem process_patch_refused : forall o f0 fl oldname t1 newname t2 h1 hs tail fname w n,
+  refusing_options o -> reject_format_opt o <> RFContext ->
+  format_from_options o = Ok f0 -> f0 = FUnknown \/ f0 = FUnified ->
+  Forall (Filler (strip_size o) (empty_patch f0)) fl -> Forall clean fl ->
+  plain_name oldname -> plain_name newname -> clean (oldname ++ tab_time t1) -> clean (newname ++ tab_time t2) ->
+  stripped oldname (strip_size o) = fname -> stripped newname (strip_size o) = fname ->
+  fname <> [] /\ ~ In 47%N fname ->
+  Forall wf_hunk (h1 :: hs) ->
+  tail_ok tail -> ends_here o f0 (after tail) = true ->
+  fault w = None -> lookup (fs w) fname = Some n -> refused_node o n ->
+  lookup (fs w) (fname ++ bs ".rej") = None ->
+  process_patch o (unified_text fl oldname t1 newname t2 (h1 :: hs) tail) w =
+  (Ok (1, refused_report (S (length hs))), refused_world w fname (unified_rejects fname t1 t2 (h1 :: hs))).
+Proof. exact Proofs_RefuseRun.process_patch_refused. Qed.
+Print Assumptions process_patch_refused.
+
+(* C17, --read-only=fail *)
+Theorem read_only_refused_run : forall o f0 fl oldname t1 newname t2 h1 hs tail fname w data mode,
+  refusing_options o -> read_only o = ROFail -> reject_format_opt o <> RFContext ->
+  format_from_options o = Ok f0 -> f0 = FUnknown \/ f0 = FUnified ->
+  Forall (Filler (strip_size o) (empty_patch f0)) fl -> Forall clean fl ->
+  plain_name oldname -> plain_name newname -> clean (oldname ++ tab_time t1) -> clean (newname ++ tab_time t2) ->
+  stripped oldname (strip_size o) = fname -> stripped newname (strip_size o) = fname ->
+  fname <> [] /\ ~ In 47%N fname ->
+  Forall wf_hunk (h1 :: hs) ->
+  tail_ok tail -> ends_here o f0 (after tail) = true ->
+  fault w = None -> lookup (fs w) fname = Some (Reg data mode) -> N.land mode write_mask = 0%N ->
+  lookup (fs w) (fname ++ bs ".rej") = None ->
+  let rej := unified_rejects fname t1 t2 (h1 :: hs) in
+  exists w',
+    process_patch o (unified_text fl oldname t1 newname t2 (h1 :: hs) tail) w = (Ok (1, refused_report (S (length hs))), w') /\
+    lookup (fs w') fname = Some (Reg data mode) /\
+    lookup (fs w') (fname ++ bs ".rej") = Some (Reg rej (created_mode (umask w))) /\
+    (forall q, q <> fname ++ bs ".rej" -> lookup (fs w') q = lookup (fs w) q) /\
+    trace w' = trace w ++ [OWrite (fname ++ bs ".rej") rej] /\
+    fault w' = None /\ umask w' = umask w /\ stdout_data w' = stdout_data w.
+Proof. exact Proofs_RefuseRun.read_only_refused_run. Qed.
+Print Assumptions read_only_refused_run.
+
+(* the hypothesis on the mode is "none of the three write bits", which is more than "no owner write permission" *)
+Theorem no_write_bits_owner : forall mode, N.land mode write_mask = 0%N -> owner_w mode = false.
+Proof. exact Proofs_RefuseRun.no_write_bits_owner. Qed.
+Print Assumptions no_write_bits_owner.
+
+(* C17, target not a regular file *)
+Theorem not_regular_refused_run : forall o f0 fl oldname t1 newname t2 h1 hs tail fname w n,
+  refusing_options o -> reject_format_opt o <> RFContext ->
+  format_from_options o = Ok f0 -> f0 = FUnknown \/ f0 = FUnified ->
+  Forall (Filler (strip_size o) (empty_patch f0)) fl -> Forall clean fl ->
+  plain_name oldname -> plain_name newname -> clean (oldname ++ tab_time t1) -> clean (newname ++ tab_time t2) ->
+  stripped oldname (strip_size o) = fname -> stripped newname (strip_size o) = fname ->
+  fname <> [] /\ ~ In 47%N fname ->
+  Forall wf_hunk (h1 :: hs) ->
+  tail_ok tail -> ends_here o f0 (after tail) = true ->
+  fault w = None -> lookup (fs w) fname = Some n -> (exists m, n = Dir m \/ n = Other m) ->
+  lookup (fs w) (fname ++ bs ".rej") = None ->
+  let rej := unified_rejects fname t1 t2 (h1 :: hs) in
+  exists w',
+    process_patch o (unified_text fl oldname t1 newname t2 (h1 :: hs) tail) w = (Ok (1, refused_report (S (length hs))), w') /\
+    lookup (fs w') fname = Some n /\
+    lookup (fs w') (fname ++ bs ".rej") = Some (Reg rej (created_mode (umask w))) /\
+    (forall q, q <> fname ++ bs ".rej" -> lookup (fs w') q = lookup (fs w) q) /\
+    trace w' = trace w ++ [OWrite (fname ++ bs ".rej") rej] /\
+    fault w' = None /\ umask w' = umask w /\ stdout_data w' = stdout_data w.
+Proof. exact Proofs_RefuseRun.not_regular_refused_run. Qed.
+Print Assumptions not_regular_refused_run.
+
+(* the whole program: patch on standard input; patch in a file named with -i *)
+Theorem run_patch_refused : forall o f0 fl oldname t1 newname t2 h1 hs tail fname w n,
+  (patch_file_path o = [] \/ patch_file_path o = bs "-") ->
+  refusing_options o -> reject_format_opt o <> RFContext ->
+  format_from_options o = Ok f0 -> f0 = FUnknown \/ f0 = FUnified ->
+  Forall (Filler (strip_size o) (empty_patch f0)) fl -> Forall clean fl ->
+  plain_name oldname -> plain_name newname -> clean (oldname ++ tab_time t1) -> clean (newname ++ tab_time t2) ->
+  stripped oldname (strip_size o) = fname -> stripped newname (strip_size o) = fname ->
+  fname <> [] /\ ~ In 47%N fname ->
+  Forall wf_hunk (h1 :: hs) ->
+  tail_ok tail -> ends_here o f0 (after tail) = true ->
+  fault w = None -> lookup (fs w) fname = Some n -> refused_node o n ->
+  lookup (fs w) (fname ++ bs ".rej") = None ->
+  run_patch o (unified_text fl oldname t1 newname t2 (h1 :: hs) tail) w =
+  mkRR 1 (refused_report (S (length hs))) (refused_world w fname (unified_rejects fname t1 t2 (h1 :: hs))).
+Proof. exact Proofs_RefuseRun.run_patch_refused. Qed.
+Print Assumptions run_patch_refused.
+
+Theorem run_patch_file_refused : forall o f0 fl oldname t1 newname t2 h1 hs tail fname w n pf pm stdin,
+  patch_file_path o = pf -> pf <> [] -> pf <> bs "-" -> ~ In 47%N pf ->
+  lookup (fs w) pf = Some (Reg (unified_text fl oldname t1 newname t2 (h1 :: hs) tail) pm) -> owner_r pm = true ->
+  refusing_options o -> reject_format_opt o <> RFContext ->
+  format_from_options o = Ok f0 -> f0 = FUnknown \/ f0 = FUnified ->
+  Forall (Filler (strip_size o) (empty_patch f0)) fl -> Forall clean fl ->
+  plain_name oldname -> plain_name newname -> clean (oldname ++ tab_time t1) -> clean (newname ++ tab_time t2) ->
+  stripped oldname (strip_size o) = fname -> stripped newname (strip_size o) = fname ->
+  fname <> [] /\ ~ In 47%N fname ->
+  Forall wf_hunk (h1 :: hs) ->
+  tail_ok tail -> ends_here o f0 (after tail) = true ->
+  fault w = None -> lookup (fs w) fname = Some n -> refused_node o n ->
+  lookup (fs w) (fname ++ bs ".rej") = None ->
+  let rej := unified_rejects fname t1 t2 (h1 :: hs) in
+  run_patch o stdin w =
+  mkRR 1 (refused_report (S (length hs)))
+       (mkWorld (upd (fs w) (fname ++ bs ".rej") (Reg rej (created_mode (umask w)))) (umask w)
+                (trace w ++ [OOpenRead pf; OWrite (fname ++ bs ".rej") rej]) None (stdout_data w)).
+Proof. exact Proofs_RefuseRun.run_patch_file_refused. Qed.
+Print Assumptions run_patch_file_refused.
+
+(* ---------- non-vacuity: f = a,b,c with mode 0444, --read-only=fail, patch in p.diff (-i p.diff) ---------- *)
+Local Open Scope string_scope.
+Definition rr_nl : list N := [10%N].
+Definition rr_l (s : String.string) := mkLine (bs s) LF.
+Definition rr_o (ro : read_only_handling) :=
+  mkOptions false false [] [] false (bs "p.diff") false false false [] (-1) 2 false [] [] false false false false false false false false
+            OBUnset OBUnset MNative RFDefault ro QSUnset [] [].
+Definition rr_data := bs "a" ++ rr_nl ++ bs "b" ++ rr_nl ++ bs "c" ++ rr_nl.
+Definition rr_h := mkHunk (mkRange 1 3) (mkRange 1 3)
+  [mkPL Ctx (rr_l "a"); mkPL Del (rr_l "b"); mkPL Add (rr_l "B"); mkPL Ctx (rr_l "c")].
+Definition rr_text := bs "diff -u a/f b/f" ++ rr_nl ++ bs "--- a/f" ++ rr_nl ++ bs "+++ b/f" ++ rr_nl ++ bs "@@ -1,3 +1,3 @@" ++ rr_nl
+  ++ bs " a" ++ rr_nl ++ bs "-b" ++ rr_nl ++ bs "+B" ++ rr_nl ++ bs " c" ++ rr_nl.
+Definition rr_rej := bs "--- f" ++ rr_nl ++ bs "+++ f" ++ rr_nl ++ bs "@@ -1,3 +1,3 @@" ++ rr_nl
+  ++ bs " a" ++ rr_nl ++ bs "-b" ++ rr_nl ++ bs "+B" ++ rr_nl ++ bs " c" ++ rr_nl.
+Definition rr_other : list N * node := (bs "other", Reg (bs "x") 256).
+Definition rr_pfile : list N * node := (bs "p.diff", Reg rr_text 420).
+(* 292 = 0444 *)
+Definition rr_w (n : node) := mkWorld [rr_pfile; rr_other; (bs "f", n)] 18 [] None [].
+
+Lemma rr_text_shape : rr_text = unified_text [bs "diff -u a/f b/f"] (bs "a/f") None (bs "b/f") None [rr_h] [].
+Proof. vm_compute. reflexivity. Qed.
+Lemma rr_wfs : Forall wf_hunk [rr_h].
+Proof. constructor; [wf_hunk_tac|constructor]. Qed.
+Lemma rr_filler ro : Forall (Filler (strip_size (rr_o ro)) (empty_patch FUnknown)) [bs "diff -u a/f b/f"].
+Proof. constructor; [vm_compute; reflexivity|constructor]. Qed.
+Lemma rr_refusing ro : refusing_options (rr_o ro).
+Proof. unfold refusing_options. repeat split; reflexivity. Qed.
+Ltac rr_noslash := let H := fresh "H" in vm_compute; intros H; repeat (destruct H as [H|H]; [discriminate H|]); exact H.
+Ltac rr_side := first [ exact rr_wfs | apply rr_filler | apply rr_refusing
+                      | reflexivity | discriminate
+                      | (vm_compute; reflexivity) | (vm_compute; discriminate) | rr_noslash
+                      | (left; discriminate) | (right; discriminate)
+                      | (left; reflexivity) | (right; vm_compute; reflexivity)
+                      | (vm_compute; split; reflexivity) | exact I
+                      | (repeat split; vm_compute; intuition discriminate)
+                      | (constructor; [repeat split; vm_compute; intuition discriminate|constructor]) ].
+
+(* the theorem, instantiated: mode 0444, --read-only=fail *)
+Example run_patch_read_only_nonvacuous :
+  run_patch (rr_o ROFail) [] (rr_w (Reg rr_data 292)) =
+  mkRR 1 (bs "1 out of 1 hunk ignored" ++ rr_nl)
+       (mkWorld [(bs "f.rej", Reg rr_rej 420); rr_pfile; rr_other; (bs "f", Reg rr_data 292)] 18
+                [OOpenRead (bs "p.diff"); OWrite (bs "f.rej") rr_rej] None []).
+Proof.
+  rewrite (run_patch_file_refused (rr_o ROFail) FUnknown [bs "diff -u a/f b/f"] (bs "a/f") None (bs "b/f") None
+             rr_h [] [] (bs "f") (rr_w (Reg rr_data 292)) (Reg rr_data 292) (bs "p.diff") 420 []);
+    rr_side.
+Qed.
+
+(* read_only_refused_run with its hypotheses discharged (process_patch on the text) *)
+Example read_only_refused_run_nonvacuous :
+  exists w',
+    process_patch (rr_o ROFail) rr_text (rr_w (Reg rr_data 292)) = (Ok (1, bs "1 out of 1 hunk ignored" ++ rr_nl), w') /\
+    lookup (fs w') (bs "f") = Some (Reg rr_data 292) /\
+    lookup (fs w') (bs "f.rej") = Some (Reg rr_rej 420) /\
+    (forall q, q <> bs "f.rej" -> lookup (fs w') q = lookup (fs (rr_w (Reg rr_data 292))) q) /\
+    trace w' = [OWrite (bs "f.rej") rr_rej].
+Proof.
+  eassert (X : _).
+  { apply (read_only_refused_run (rr_o ROFail) FUnknown [bs "diff -u a/f b/f"] (bs "a/f") None (bs "b/f") None
+             rr_h [] [] (bs "f") (rr_w (Reg rr_data 292)) rr_data 292); rr_side. }
+  cbv zeta in X. destruct X as (w' & E & A & B & C & D & _).
+  exists w'. rewrite rr_text_shape. split; [exact E|]. split; [exact A|]. split; [exact B|]. split; [exact C|exact D].
+Qed.
+
+(* the target is a directory: the theorem, instantiated (--read-only left at its default) *)
+Example run_patch_directory_nonvacuous :
+  run_patch (rr_o ROWarn) [] (rr_w (Dir 493)) =
+  mkRR 1 (bs "1 out of 1 hunk ignored" ++ rr_nl)
+       (mkWorld [(bs "f.rej", Reg rr_rej 420); rr_pfile; rr_other; (bs "f", Dir 493)] 18
+                [OOpenRead (bs "p.diff"); OWrite (bs "f.rej") rr_rej] None []).
+Proof.
+  rewrite (run_patch_file_refused (rr_o ROWarn) FUnknown [bs "diff -u a/f b/f"] (bs "a/f") None (bs "b/f") None
+             rr_h [] [] (bs "f") (rr_w (Dir 493)) (Dir 493) (bs "p.diff") 420 []);
+    rr_side.
+Qed.
+
+(* cross-check by plain computation of the model: exit status 1, bytes and mode of f untouched, f.rej created, no backup *)
+Example whole_program_read_only_fail :
+  let r := run_patch (rr_o ROFail) [] (rr_w (Reg rr_data 292)) in
+  rr_exit r = 1 /\ rr_events r = bs "1 out of 1 hunk ignored" ++ rr_nl /\
+  lookup (fs (rr_world r)) (bs "f") = Some (Reg rr_data 292) /\
+  lookup (fs (rr_world r)) (bs "f.orig") = None /\ lookup (fs (rr_world r)) (bs "f.rej") = Some (Reg rr_rej 420) /\
+  lookup (fs (rr_world r)) (bs "other") = Some (Reg (bs "x") 256) /\
+  trace (rr_world r) = [OOpenRead (bs "p.diff"); OWrite (bs "f.rej") rr_rej].
+Proof. vm_compute. repeat split; reflexivity. Qed.
+
+Example whole_program_directory :
+  let r := run_patch (rr_o ROWarn) [] (rr_w (Dir 493)) in
+  rr_exit r = 1 /\ rr_events r = bs "1 out of 1 hunk ignored" ++ rr_nl /\
+  lookup (fs (rr_world r)) (bs "f") = Some (Dir 493) /\ lookup (fs (rr_world r)) (bs "f.rej") = Some (Reg rr_rej 420) /\
+  trace (rr_world r) = [OOpenRead (bs "p.diff"); OWrite (bs "f.rej") rr_rej].
+Proof. vm_compute. repeat split; reflexivity. Qed.
+
+(* the quirk: only the three write bits together make a file read-only.  Mode 0464 (no owner write permission, group write
+   permission) is NOT refused under --read-only=fail: the program reads the file and tries to write it without making it
+   writable first; the write fails (the model's process is the owner: EACCES) and the run ends with exit status 2, not 1.
+   The file is untouched all the same, but there is neither a reject file nor a report. *)
+Example whole_program_group_writable_not_refused :
+  let r := run_patch (rr_o ROFail) [] (rr_w (Reg rr_data 308)) in
+  owner_w 308 = false /\ rr_exit r = 2 /\ rr_events r = [] /\
+  lookup (fs (rr_world r)) (bs "f") = Some (Reg rr_data 308) /\
+  lookup (fs (rr_world r)) (bs "f.rej") = None /\
+  trace (rr_world r) = [OOpenRead (bs "p.diff"); OOpenRead (bs "f"); OWrite (bs "f") (bs "a" ++ rr_nl ++ bs "B" ++ rr_nl ++ bs "c" ++ rr_nl)].
+Proof. vm_compute. repeat split; reflexivity. Qed.
